@@ -1,6 +1,7 @@
 import DarkluaModel.C13.Model
 import DarkluaModel.C13.Spec
 import DarkluaModel.C13.Lemmas
+import DarkluaModel.C13.LemmasNum
 /-!
 C13 — String and number literals survive generation exactly: the property theorems.
 
@@ -238,28 +239,118 @@ theorem binary_literal_roundtrip {F : Type} (ops : NumOps F) (n : Nat)
 example : luauNumber? (writeNumber floatOps (.hex 0xdeadbeef none true)) = some (.int 0xdeadbeef) :=
   hex_literal_roundtrip _ _ (by decide) _
 
-/-- `number_parse_spec`, the digit part: on a run of digits valid in the radix the model
-parser's `u64::from_str_radix` (optional `+`, digit folding, overflow check) is the reference
-lexer's `strtoull`: same acceptance, same value, same overflow rejection — for hexadecimal and
-binary. (The decimal value is in both the correctly rounded reading of the text without
-underscores, `ops.parse (filterUnderscore text)`; that the `0x`/`0b` prefix detection, the
-underscore positions and the decimal grammar agree between model and reference for every token
-is covered by the run-time comparison only — see meta/C13.json.) -/
+/-- the digit part: on a run of digits valid in the radix the model parser's
+`u64::from_str_radix` is the reference lexer's `strtoull` (same acceptance, value, overflow) -/
 theorem number_parse_spec_digits (ds : List UInt8) :
     (ds.all (fun c => (hexVal? c).any (· < 16)) = true →
       parseUnsigned 16 18446744073709551615 ds = strtoullAll 16 ds) ∧
     (ds.all (fun c => (hexVal? c).any (· < 2)) = true →
       parseUnsigned 2 18446744073709551615 ds = strtoullAll 2 ds) :=
-  ⟨parseUnsigned_eq_strtoull 16 toDigit_16 ds, parseUnsigned_eq_strtoull 2 toDigit_2 ds⟩
+  number_parse_spec_digits_aux ds
 
 example : ([49, 98, 70, 50, 65] : List UInt8).all (fun c => (hexVal? c).any (· < 16)) = true := by decide
+
+/-- the value a parsed number node carries, against the reference description of the literal -/
+def Denotes {F : Type} (ops : NumOps F) : NumLit F → NumDesc → Prop
+  | .hex n none _, .int m => n = m
+  | .binary n _, .int m => n = m
+  | .decimal x _, .dec d e => x = ops.ofDecimal d e
+  | _, _ => False
+
+/-- `number_parse_spec`, acceptance and value. For EVERY text the reference Luau lexer
+(`Spec.luauNumber?`: one number token; underscores anywhere the lexer allows; `0x`/`0X`,
+`0b`/`0B`, decimal with fraction and exponent) reads as a literal:
+* hexadecimal / binary: the model of `FromStr` accepts it and yields that integer;
+* decimal: unless the exponent text overflows `i64` (decidable `expOverflows`, see
+  `number_parse_complete_full_false`) the model accepts it, and the double it stores is the
+  correctly rounded `digits × 10^exp` the reference describes (relative to `ParseLaws`: Rust's
+  `parse::<f64>` reads the reference decimal grammar with correct rounding). -/
+theorem number_parse_spec {F : Type} (ops : NumOps F) (laws : ParseLaws ops) (text : List UInt8)
+    (desc : NumDesc) (h : luauNumber? text = some desc)
+    (H : expOverflows text = false) :
+    ∃ lit, parseNumber ops text = .ok lit ∧ Denotes ops lit desc := by
+  cases desc with
+  | int n =>
+    obtain ⟨up, hp | hp⟩ := parseNumber_int ops h
+    · exact ⟨_, hp, rfl⟩
+    · exact ⟨_, hp, rfl⟩
+  | dec d e =>
+    obtain ⟨ex, hp⟩ := parseNumber_dec ops laws h H
+    exact ⟨_, hp, rfl⟩
+
+/-- Soundness without any side condition: whenever the model parser accepts a text the
+reference lexer reads as a literal, the node carries exactly the reference value. -/
+theorem number_parse_sound {F : Type} (ops : NumOps F) (laws : ParseLaws ops) (text : List UInt8)
+    (desc : NumDesc) (lit : NumLit F) (h : luauNumber? text = some desc)
+    (hp : parseNumber ops text = .ok lit) : Denotes ops lit desc := by
+  cases desc with
+  | int n =>
+    obtain ⟨up, hp' | hp'⟩ := parseNumber_int ops h
+    · rw [hp'] at hp; cases hp; rfl
+    · rw [hp'] at hp; cases hp; rfl
+  | dec d e =>
+    obtain ⟨_, hpre, hdec⟩ := luauNumber_dec h
+    have hp2 : parseDecBranch ops text = .ok lit := by
+      unfold parseNumber at hp; rw [hpre] at hp; exact hp
+    obtain ⟨x, ex, rfl, hx⟩ := parseDecBranch_ok ops hp2
+    rw [laws.parse_decimal _ _ _ hdec] at hx
+    cases hx
+    rfl
+
+/-- completeness at full strength: every literal of the grammar is accepted -/
+def number_parse_complete_full : Prop :=
+  ∀ text : List UInt8, (luauNumber? text).isSome = true →
+    ∃ lit, parseNumber floatOps text = .ok lit
+
+/-- `1e99999999999999999999` (Luau: `inf`) -/
+def expOverflowWitness : List UInt8 := [49, 101] ++ List.replicate 20 57
+
+/-- The full completeness statement is false of the code: `from_str` parses the exponent text
+as an `i64` and gives up when it overflows, although the literal is valid Luau (robustness
+observation; no accepted literal gets a wrong value — `number_parse_sound`). -/
+theorem number_parse_complete_full_false : ¬ number_parse_complete_full := by
+  intro h
+  have h1 : (luauNumber? expOverflowWitness).isSome = true := by decide +kernel
+  obtain ⟨lit, hl⟩ := h expOverflowWitness h1
+  have h2 : (match parseNumber floatOps expOverflowWitness with
+      | .error _ => true | .ok _ => false) = true := by decide +kernel
+  rw [hl] at h2
+  exact absurd h2 (by simp)
+
+example : expOverflows expOverflowWitness = true := by decide +kernel
+
+/-- Rejected spellings are rejected by both: a text shaped like a number token that the
+reference lexer does not read as a literal (`1e`, `1e+`, `1.2.3`, `1e5e6`, `0x`, `0b2`,
+`0xg`, `12abc`, 2⁶⁴ and above in hex/binary …) is refused by the model parser — except the
+hexadecimal floats `0x…p…` (decidable `hexFloatShape`), which `from_str` accepts as Lua 5.2
+does and Luau does not. Relative to `RejectLaws` (what Rust's `parse::<f64>` refuses). -/
+theorem number_parse_reject {F : Type} (ops : NumOps F) (laws : RejectLaws ops) (text : List UInt8)
+    (htok : isNumberToken text = true) (h : luauNumber? text = none)
+    (H : hexFloatShape text = false) :
+    ∃ err, parseNumber ops text = .error err :=
+  parseNumber_reject ops laws htok h H
+
+-- non-vacuity: `10_0.12_e_8` is a literal of the grammar, no overflow
+example : luauNumber? [49, 48, 95, 48, 46, 49, 50, 95, 101, 95, 56] = some (.dec 10012 6) ∧
+    expOverflows [49, 48, 95, 48, 46, 49, 50, 95, 101, 95, 56] = false := by decide +kernel
+-- non-vacuity: `0_x_12` is a hexadecimal literal
+example : luauNumber? [48, 95, 120, 95, 49, 50] = some (.int 18) := by decide +kernel
+-- non-vacuity: `1e+` is token-shaped and refused by the reference, not a hex float
+example : isNumberToken [49, 101, 43] = true ∧ luauNumber? [49, 101, 43] = none ∧
+    hexFloatShape [49, 101, 43] = false := by decide +kernel
+-- the excluded region is real: `0x12p4` is accepted by the model parser, refused by Luau
+example : hexFloatShape [48, 120, 49, 50, 112, 52] = true ∧
+    luauNumber? [48, 120, 49, 50, 112, 52] = none ∧
+    (match parseNumber floatOps [48, 120, 49, 50, 112, 52] with
+      | .ok (.hex 18 (some (4, false)) false) => true | _ => false) = true :=
+  ⟨by decide +kernel, by decide +kernel, by decide +kernel⟩
 
 -- non-vacuity of `NumLaws`: a (degenerate) structure satisfying the laws exists, with finite values
 example : ∃ (ops : NumOps Nat), NumLaws ops ∧ ops.isNaN 3 = false ∧ ops.isInf 3 = false :=
   ⟨{ isNaN := fun _ => false, isInf := fun _ => false, isZero := fun n => n == 0,
      signNeg := fun _ => false, fractIsZero := fun _ => true, divPow10 := fun x _ => x,
      fmt := fun n => List.replicate n 49, fmtExp := fun _ n => List.replicate n 49,
-     parse := fun s => some s.length, eq := fun a b => a == b },
+     parse := fun s => some s.length, ofDecimal := fun d _ => d, eq := fun a b => a == b },
    ⟨by intro x _ _; simp, by intro _ x _ _; simp, by intro y x h _; simpa using h⟩, rfl, rfl⟩
 
 end DarkluaModel.C13
